@@ -29,6 +29,14 @@ def wfE : Expr → Bool
   | .tsLabels => true
   | .numLit _ => true
   | .anyIfNum _ => true
+  | .mulOp a b => wfE a && wfE b
+  | .divOp a b => wfE a && wfE b
+  | .mapFilterKeys _ _ m => wfE m
+  | .mapAt m _ => wfE m
+  | .tupleAt _ _ => true
+  | .topkSlice _ _ _ => true
+  | .arrayJoinFrom s a => wfE s && wfE a
+  | .fixedLit _ _ => true
 def wfEs : List Expr → Bool
   | [] => true
   | e :: es => wfE e && wfEs es
